@@ -12,8 +12,9 @@ plain Python lists, written from the documented meaning of the operations
     group   = default sort, then the axis reports itself grouped iff it has a group-label array
     grouped axis => (name, stix, spix, len) are the maximal runs of the group labels, names pairwise distinct
 
-An entity is (uid, cohort).  Its labels are a pure function of (kind, uid, profile, seed): the labels "it was
-created with".  Its data are provenance coded: the cell at physical index (i0, i1, ...) holds
+An entity is (uid, cohort, ovr).  Its labels are a pure function of (kind, uid, profile, seed) unless the call that
+brought it into a matrix overrode a label by keyword (documented: "providing this argument overwrites the field");
+`ovr` is the tuple of (field, value) pairs it was created with in that case.  Its data are provenance coded: the cell at physical index (i0, i1, ...) holds
 code(uid(i0), uid(i1), ...), so every cell says which entities it belongs to.  `cohort` only matters for square
 (taxa x taxa) matrices, where joining two matrices leaves the cross blocks undefined (NaN): a cell is defined iff
 the entities on all axes of the same logical kind have the same cohort.
@@ -128,6 +129,18 @@ def label(field, uid, seed=0, dup=False, maskbits=None):
     if field == "vrnt_mask":
         return _MASK[uid]
     raise KeyError(field)
+
+
+def override_value(field, v):
+    """A label value different from the operand's own one (used for keyword overrides)."""
+    dt = FIELD_DTYPE[field]
+    if dt == "object":
+        return str(v) + "_kw"
+    if dt == "bool":
+        return not v
+    if dt == "int64":
+        return int(v) + 100
+    return float(v) + 0.5
 
 
 # ----------------------------------------------------------------------------------------------------------------
@@ -285,10 +298,11 @@ class Ref:
         if not self.present.get(field, False):
             return None
         kind = kind or next(k for k, fs in KIND_FIELDS.items() if field in fs)
-        return [label(field, u, self.seed, self.dup, self.maskbits) for u, _ in self.axes[kind]]
+        return self.column(field, kind)
 
     def column(self, field, kind):
-        return [label(field, u, self.seed, self.dup, self.maskbits) for u, _ in self.axes[kind]]
+        return [dict(o)[field] if (o and field in dict(o)) else label(field, u, self.seed, self.dup, self.maskbits)
+                for u, _, o in self.axes[kind]]
 
     def meta(self, kind):
         """Expected (name, stix, spix, len) if the axis is grouped, else None."""
@@ -303,9 +317,9 @@ class Ref:
         def rec(d, picked):
             if d == len(lists):
                 for k in self.square:
-                    if len({c for (u, c), kk in zip(picked, self.phys) if kk == k}) > 1:
+                    if len({c for (u, c, o), kk in zip(picked, self.phys) if kk == k}) > 1:
                         return None
-                return coder.value([u for u, _ in picked])
+                return coder.value([e[0] for e in picked])
             return [rec(d + 1, picked + [e]) for e in lists[d]]
         return rec(0, [])
 
@@ -314,9 +328,13 @@ class Ref:
         return [f for f in DEFAULT_KEYS.get(kind, ()) if self.present.get(f, False)]
 
     # -- transitions -------------------------------------------------------------------------------------------
-    def operand_ents(self, kind, which):
+    def operand_ents(self, kind, which, override=(), missing=()):
+        """Entities an operand contributes; `override` = fields whose labels the call overrides by keyword;
+        `missing` = name fields a raw ndarray operand does not supply (documented: filled with None)."""
         c = self.cohort_ctr
-        return tuple((u, c) for u in POOL[kind][which])
+        return tuple((u, c, tuple((f, override_value(f, label(f, u, self.seed, self.dup, self.maskbits)))
+                                  for f in override) + tuple((f, None) for f in missing))
+                     for u in POOL[kind][which])
 
     def apply(self, op):
         """Return the reference state after the abstract operation `op` (dict, JSON-able).  Raises ValueError
@@ -333,7 +351,7 @@ class Ref:
             newL = l_delete(L, decode_arg(op["arg"]))
             g = False
         elif name in ("insert", "adjoin", "concat"):
-            O = self.operand_ents(kind, op["operand"])
+            O = self.operand_ents(kind, op["operand"], tuple(op.get("override", ())), tuple(op.get("missing", ())))
             r.cohort_ctr = self.cohort_ctr + 1
             if name == "insert":
                 newL = l_insert(L, decode_arg(op["arg"]), O)
@@ -387,7 +405,7 @@ class Ref:
 
     def explicit_keys(self, kind, which):
         """Explicit key columns (python lists) derived from the entities, so that they move with them."""
-        us = [u for u, _ in self.axes[kind]]
+        us = [e[0] for e in self.axes[kind]]
         if which == "k1":                      # one integer key: descending uid
             return [[-u for u in us]]
         if which == "k2":                      # two keys: parity primary, uid secondary -> ties broken by 2nd key
